@@ -27,7 +27,10 @@ def gen_tree(rng, depth, name):
         if depth > 0 and r < 0.35:
             kids.append(gen_tree(rng, depth - 1, n))
         elif r < 0.45:
-            kids.append(('l', n, rng.choice(["a", "sub", "nowhere"])))
+            # half of the links point at a sibling that exists (a file of any size, a directory): a link is an entry of
+            # its own, judged by what the LINK is, never by its target
+            sib = [k[1] for k in kids if k[0] in ('f', 'd')]
+            kids.append(('l', n, rng.choice(sib) if sib and rng.random() < 0.6 else rng.choice(["a", "sub", "nowhere"])))
         else:
             # a third of the files are (where possible) created as HARD LINKS to an earlier file of the same size:
             # two paths, one inode - each path is still an entry of its own
@@ -52,7 +55,8 @@ def world_nodes(t, prefix="", seen=None):
         seen.setdefault(t[2], p)
         return [dict(t="f", p=p, c=("00" * t[2]), m=0o644)]
     if t[0] == 'l':
-        return [dict(t="l", p=p, to=t[2])]
+        # the target is a name in the link's own directory (the harness resolves `to` from the sandbox root)
+        return [dict(t="l", p=p, to=prefix + t[2])]
     out = [dict(t="d", p=p, m=0o755)]
     for k in t[2]:
         out += world_nodes(k, p + "/", seen)
@@ -158,6 +162,9 @@ def c16(run, replay=None):
         cases.append((t, roots, p, "*.log\n"))
     lines = [case_sx(roots, p) for t, roots, p, ig in cases]
     mouts = C.run_oracle(lines)
+    # for the symbolic links of a query with a size limit: what the model lists WITHOUT the limit (the limit is then applied
+    # to the link's own length, see below)
+    nosize = C.run_oracle([case_sx(roots, dict(p, size=None)) for t, roots, p, ig in cases])
     icases = []
     for t, roots, p, ig in cases:
         world = world_nodes(t)
@@ -170,7 +177,7 @@ def c16(run, replay=None):
     nontrivial = set()
     mism = []
     dist = {}
-    for (t, roots, p, ig), mo, io in zip(cases, mouts, iouts):
+    for (t, roots, p, ig), mo, io, mo_ns, ic in zip(cases, mouts, iouts, nosize, icases):
         model = sorted("/".join(unhx(a).decode() for a in e) for e in parse_sx(mo))
         desc = dict(tree=t, roots=["/".join(pre + (r[1],)) for pre, r in roots], params=dict(p, patterns=[r[1] for r in p["patterns"]], excludes=[r[1] for r in p["excludes"]]),
                     ignore_file=ig)
@@ -189,10 +196,15 @@ def c16(run, replay=None):
             run.violation("the find() lookup and the find module disagree: %r vs %r" % (io.get("lookup"), got), dict(desc, implementation=io))
             continue
         if p["size"] is not None:
-            # max_filesize is applied to the lstat length of a symlink (its target string): not judged
-            links = set(n["p"] for n in world_nodes(t) if n["t"] == "l")
-            got = [x for x in got if x not in links]
-            model = [x for x in model if x not in links]
+            # a symbolic link is an entry of its own: the limit applies to the LINK's length (lstat: the length of its target
+            # text, here the absolute path the harness wrote), never to the size of what it points at
+            lnodes = {n["p"]: n["to"] for n in world_nodes(t) if n["t"] == "l"}
+            model_ns = ["/".join(unhx(a).decode() for a in e) for e in parse_sx(mo_ns)]
+            llen = {x: len(os.path.join(FIND_ROOT, "f0", lnodes[x]).encode()) for x in lnodes}      # (the shard directory is f0 .. f15)
+            unsure = set(x for x in lnodes if abs(llen[x] - p["size"]) <= 2)
+            want_links = [x for x in model_ns if x in lnodes and x not in unsure and llen[x] <= p["size"]]
+            model = sorted([x for x in model if x not in lnodes] + want_links)
+            got = [x for x in got if x not in unsure]
         dup = len(got) != len(set(got))
         if dup and sorted(got) == model:
             # the mirror walks every root like the code does; the PROPERTY says each path exactly once
